@@ -182,7 +182,7 @@ def hexErrName : HexErr → String
 
 def exec (toks : List String) : String :=
   match toks with
-  | ["reset"] => "reset"
+  | "reset" :: _ => "reset"
   | name :: _ =>
     match methodOf name with
     | none => "bad-op"
